@@ -32,10 +32,68 @@ def evaluate(case, ctr, rng):
                               "what": "accepting execution with Fee %s visits block at line %d whose max_fee is %d" % (
                                   x[0], b.entry_instr.line, x[1]),
                               "exec": frag.slim_exec(e), "ended_in_call": e.ended_in_call})
+    viols.extend(evaluate_single(case, ctr))
     ev, nt = exact.evaluate_fee(case, ctr, rng)
     viols.extend(ev)
     nontrivial.extend(nt)
     return viols, nontrivial
+
+
+def single_checks(rng):
+    """Clause 3: every single direct check (six operators x operand order x negation x consumer) over a few constants.
+    The expected bound is computed by brute force over the representatives and carried in a feature string."""
+    U = frag.U64
+    OPS = {"==": lambda a, b: a == b, "!=": lambda a, b: a != b, "<": lambda a, b: a < b, "<=": lambda a, b: a <= b,
+           ">": lambda a, b: a > b, ">=": lambda a, b: a >= b}
+    out = []
+    for c in (0, 1, 1000, 271999, 272000, 272001, 5000000, U - 1, U):
+        for op, fn in OPS.items():
+            for const_first in (False, True):
+                for neg in (False, True):
+                    for consumer in ("assert", "bz", "bnz", "return"):
+                        reps = sorted(set(v for v in (0, c - 1, c, c + 1, 272000, 272001, U) if 0 <= v <= U))
+                        def holds(f):
+                            r = fn(c, f) if const_first else fn(f, c)
+                            return (not r) if neg else r
+                        cmpi = ([("int", c), ("txn", "Fee")] if const_first else [("txn", "Fee"), ("int", c)]) + [(op,)]
+                        if neg:
+                            cmpi.append(("!",))
+                        if consumer == "assert":
+                            prog = cmpi + [("assert",), ("int", 1), ("return",)]
+                            acc, leaf = [f for f in reps if holds(f)], len(prog) - 2
+                        elif consumer == "return":
+                            prog = cmpi + [("return",)]
+                            acc, leaf = [f for f in reps if holds(f)], 0
+                        elif consumer == "bz":
+                            prog = cmpi + [("bz", "FAIL"), ("int", 1), ("return",), ("label", "FAIL"), ("err",)]
+                            acc, leaf = [f for f in reps if holds(f)], len(cmpi) + 1
+                        else:
+                            prog = cmpi + [("bnz", "OK"), ("err",), ("label", "OK"), ("int", 1), ("return",)]
+                            acc, leaf = [f for f in reps if holds(f)], len(prog) - 2
+                        if not acc:
+                            continue
+                        out.append((prog, 4, ["single_fee_check", "expect_fee_bound=%d@%d" % (max(acc), leaf + 2)]))
+    rng.shuffle(out)
+    return out[:400]
+
+
+def evaluate_single(case, ctr):
+    viols = []
+    for f in case.features:
+        if not str(f).startswith("expect_fee_bound="):
+            continue
+        want, line = f.split("=", 1)[1].split("@")
+        want, line = int(want), int(line)
+        for b in case.function.blocks:
+            if b.entry_instr.line <= line <= b.exit_instr.line:
+                ctx = case.function.transaction_context(b)
+                ctr["single_check_bounds_compared"] += 1
+                got = None if ctx.max_fee_unknown else ctx.max_fee
+                if got != want:
+                    viols.append({"kind": "single-check-bound-not-exact", "key": line, "ckey": "fee-single",
+                                  "what": "single direct check: the accepting block at line %d should carry exactly the bound %d, tealer says %s" % (
+                                      line, want, "unknown" if got is None else got)})
+    return viols
 
 
 _P = {"keys": ["Fee", "Fee", "Fee", "Addr", "Type", "GroupIndex"]}
@@ -48,6 +106,6 @@ _c = fragcheck.FragCheck(
     sizes={"quick": (32, 45), "thorough": (160, 160)},
     rule="fragment programs biased to Fee comparisons (six operators, both operand orders, negations, &&/||) x fee "
          "representatives; non-trivial = distinct (program, block) with a finite reported bound visited by an accepting execution",
-    classify=classify.fragment, cap=(900, 1800),
+    classify=classify.fragment, cap=(900, 1800), extra_cases=single_checks,
 )
 _c.export(globals())
